@@ -40,6 +40,13 @@ Theorem C09_well_formed_fast_b : forall signed t,
 Proof. exact well_formed_fast_b_spec. Qed.
 Print Assumptions C09_well_formed_fast_b.
 
+(* the boolean premise evaluated on every generated case implies the premise of
+   the theorems above *)
+Theorem C09_premise_decidable : forall cap t,
+  len (t_outs t) <= cap -> facts_consistent_b cap t = true -> facts_consistent t.
+Proof. exact facts_consistent_b_spec. Qed.
+Print Assumptions C09_premise_decidable.
+
 (* VerifyInputSignatures under its caller's precondition *)
 Theorem C09_verify_input_sigs_iff : forall t ux,
   List.length (t_ins t) = List.length ux -> List.length (t_ins t) = List.length (t_sigs t) ->
